@@ -67,19 +67,13 @@ func RunSet(id string, opts GlobalOptions) error {
 			return err
 		}
 		agentID := opts.AgentID
-		if err := applySetUpdates(dir, opts, id, updates, agentID, opts.JSON); err != nil {
+		stored, err := applySetUpdates(dir, opts, id, updates, agentID, opts.JSON)
+		if err != nil {
 			return err
 		}
 
 		if opts.JSON {
-			graph, err := loadGraph(dir)
-			if err != nil {
-				return err
-			}
-			task := graph.Tasks[id]
-			if task == nil {
-				return fmt.Errorf("unknown task id %s", id)
-			}
+			task := stored.Task
 			return writeJSON(os.Stdout, setOutput{
 				Kind:          "set",
 				ID:            id,
@@ -136,19 +130,13 @@ func RunSet(id string, opts GlobalOptions) error {
 			return err
 		}
 		agentID := opts.AgentID
-		if err := applySetUpdates(dir, opts, id, updates, agentID, opts.JSON); err != nil {
+		stored, err := applySetUpdates(dir, opts, id, updates, agentID, opts.JSON)
+		if err != nil {
 			return err
 		}
 
 		if opts.JSON {
-			graph, err := loadGraph(dir)
-			if err != nil {
-				return err
-			}
-			task := graph.Tasks[id]
-			if task == nil {
-				return fmt.Errorf("unknown task id %s", id)
-			}
+			task := stored.Task
 			return writeJSON(os.Stdout, setOutput{
 				Kind:          "set",
 				ID:            id,
@@ -192,19 +180,13 @@ func RunSet(id string, opts GlobalOptions) error {
 	}
 
 	agentID := opts.AgentID
-	if err := applySetUpdates(dir, opts, id, updates, agentID, opts.JSON); err != nil {
+	stored, err := applySetUpdates(dir, opts, id, updates, agentID, opts.JSON)
+	if err != nil {
 		return err
 	}
 
 	if opts.JSON {
-		graph, err := loadGraph(dir)
-		if err != nil {
-			return err
-		}
-		task := graph.Tasks[id]
-		if task == nil {
-			return fmt.Errorf("unknown task id %s", id)
-		}
+		task := stored.Task
 		return writeJSON(os.Stdout, setOutput{
 			Kind:          "set",
 			ID:            id,
@@ -236,21 +218,14 @@ func RunClaim(id string, opts GlobalOptions) error {
 	if err != nil {
 		return err
 	}
-	if err := applySetUpdates(dir, opts, id, updates, agentID, true); err != nil {
-		return err
-	}
-
-	graph, err := loadGraph(dir)
+	stored, err := applySetUpdates(dir, opts, id, updates, agentID, true)
 	if err != nil {
 		return err
 	}
-	task := graph.Tasks[id]
-	if task == nil {
-		return errors.New("internal error: missing claimed task")
-	}
+	task := stored.Task
 
 	if opts.JSON {
-		claimedAt := claimedAtForTask(task, graph.Meta[id])
+		claimedAt := claimedAtForTask(task, stored.Meta)
 		return writeJSON(os.Stdout, map[string]interface{}{
 			"id":         task.ID,
 			"epic":       task.EpicID,
@@ -394,14 +369,24 @@ func buildUpdatedFields(input *TaskInput) []string {
 	return fields
 }
 
-func applySetUpdates(dir string, opts GlobalOptions, id string, updates map[string]string, agentID string, quiet bool) error {
+// setResult is the item as stored right after a set, read back while the lock
+// is still held. Replies are built from it: once the lock is released another
+// process may change or prune the item, and a command that has already
+// committed must neither fail nor report somebody else's later change.
+type setResult struct {
+	Task *Task
+	Meta *TaskMeta
+}
+
+func applySetUpdates(dir string, opts GlobalOptions, id string, updates map[string]string, agentID string, quiet bool) (setResult, error) {
 	lockPath := filepath.Join(dir, "lock")
 	eventsPath := getEventsPath(dir)
 	repoDir := filepath.Dir(dir)
+	var result setResult
 
 	// A result attachment and the remaining fields are validated and written
 	// together, under one lock: the command applies all of its fields or none.
-	return withLock(lockPath, syscall.LOCK_EX, func() error {
+	err := withLock(lockPath, syscall.LOCK_EX, func() error {
 		graph, err := loadGraph(dir)
 		if err != nil {
 			return err
@@ -450,11 +435,20 @@ func applySetUpdates(dir string, opts GlobalOptions, id string, updates map[stri
 		if err := appendEvents(eventsPath, events); err != nil {
 			return err
 		}
+		stored, err := loadGraph(dir)
+		if err != nil {
+			return err
+		}
+		result = setResult{Task: stored.Tasks[id], Meta: stored.Meta[id]}
+		if result.Task == nil {
+			return fmt.Errorf("internal error: %s missing after update", id)
+		}
 		if !quiet {
 			fmt.Println(id)
 		}
 		return nil
 	})
+	return result, err
 }
 
 // buildSetEvents generates the event list for a set command.
